@@ -71,6 +71,9 @@ Ref(rs, a) ==
                                THEN WithKids(rs, a.j, InsK(rs[a.j + 1].kids, a.c, a.i)) ELSE rs
       [] a.op = "kidadd"  -> IF a.j < Len(rs) /\ KidOk(rs[a.j + 1], a.c)
                              THEN WithKids(rs, a.j, Append(rs[a.j + 1].kids, a.c)) ELSE rs
+      [] a.op = "kidinsertlist" ->      \* a rule list as argument: every member is subject to the same checks (all or nothing here)
+                               IF a.j < Len(rs) /\ \A n \in 1..Len(a.cs) : KidOk(rs[a.j + 1], a.cs[n])
+                               THEN WithKids(rs, a.j, a.cs \o rs[a.j + 1].kids) ELSE rs
       [] a.op = "styleset" -> rs       \* a declaration edit: the rule list is untouched (parent links are re-checked)
       [] a.op = "kiddelete" -> IF a.j < Len(rs) /\ a.i < Len(rs[a.j + 1].kids)
                                THEN WithKids(rs, a.j, DelK(rs[a.j + 1].kids, a.i)) ELSE rs
@@ -85,6 +88,7 @@ Enabled(rs) ==
     \cup {[op |-> "setenc", e |-> e] : e \in {"none", "ascii", "utf-8"}}
     \cup {[op |-> "kidinsert", j |-> j, c |-> c, i |-> i] : j \in Nested(rs), c \in KidKinds, i \in 0..1}
     \cup {[op |-> "kidadd", j |-> j, c |-> c] : j \in Nested(rs), c \in KidKinds}
+    \cup {[op |-> "kidinsertlist", j |-> j, cs |-> <<IF rs[j + 1].k = "page" THEN "margin" ELSE "style", c>>] : j \in Nested(rs), c \in KidKinds}
     \cup {[op |-> "kiddelete", j |-> j, i |-> i] : j \in Nested(rs), i \in 0..1}
     \cup {[op |-> "styleset", j |-> j, how |-> h] : j \in Styled(rs), h \in {"name", "object", "foreign"}}
 
